@@ -2,9 +2,11 @@ package main
 
 import (
 	"bytes"
+	"crypto/sha256"
 	"encoding/base64"
 	"encoding/json"
 	"fmt"
+	blst "github.com/supranational/blst/bindings/go"
 	"math"
 	"runtime/debug"
 
@@ -40,6 +42,34 @@ type hostile struct {
 	Class string `json:"class"` // malformed | wrongchain | replay | foreign | member
 	Desc  string `json:"desc"`
 	Tx    []byte `json:"tx"`
+	// Invalid: why the payload is structurally invalid (decided by the harness from
+	// the encoding rules, independently of the application); "" = not known to be
+	Invalid string `json:"invalid_payload,omitempty"`
+}
+
+// invalidPayload tells whether a payload violates the encoding rules of its type
+// (only rules that hold in every chain state are used).
+func invalidPayload(m *shmsg.Message) string {
+	if pc := m.GetPolyCommitment(); pc != nil {
+		for i, g := range pc.Gammas {
+			p := new(blst.P2Affine).Uncompress(g)
+			if p == nil {
+				return fmt.Sprintf("gamma %d is not the compressed encoding of a curve point", i)
+			}
+			if !p.InG2() {
+				return fmt.Sprintf("gamma %d is a curve point outside the group G2", i)
+			}
+		}
+	}
+	if ci := m.GetCheckIn(); ci != nil {
+		if len(ci.ValidatorPublicKey) != 32 {
+			return "validator public key is not 32 bytes long"
+		}
+		if _, err := crypto.DecompressPubkey(ci.EncryptionPublicKey); err != nil {
+			return "encryption public key is not a compressed secp256k1 point"
+		}
+	}
+	return ""
 }
 
 const foreignIdx = 4
@@ -84,6 +114,7 @@ func payloadPool(w *appx.World) []*shmsg.Message {
 	// DKG messages
 	g := u.Gammas[1]
 	gb := (*g)[0].Compress()
+	offSubgroup := offSubgroupG2Point()
 	for _, eon := range []uint64{0, 1, 2, math.MaxUint64} {
 		for _, recv := range [][][]byte{nil, {a(1)}, {short}, {long}, {a(0)}, {a(1), a(1)}, {a(1), a(2)}, {a(foreignIdx)}, {{}}} {
 			for _, evals := range [][][]byte{nil, {{1}}, {{1}, {2}}, {{}}, {nil, nil, nil}} {
@@ -94,7 +125,7 @@ func payloadPool(w *appx.World) []*shmsg.Message {
 				add(&shmsg.Message{Payload: &shmsg.Message_Apology{Apology: &shmsg.Apology{Eon: eon, Accusers: recv, PolyEvals: evals}}})
 			}
 		}
-		for _, gs := range [][][]byte{nil, {}, {gb}, {gb, gb, gb}, {gb[:95]}, {bytes.Repeat([]byte{0xff}, 96)}, {bytes.Repeat([]byte{0}, 96)}, {{}}, {append([]byte{0xc0}, bytes.Repeat([]byte{0}, 95)...)}} {
+		for _, gs := range [][][]byte{nil, {}, {gb}, {gb, gb, gb}, {gb[:95]}, {bytes.Repeat([]byte{0xff}, 96)}, {bytes.Repeat([]byte{0}, 96)}, {{}}, {append([]byte{0xc0}, bytes.Repeat([]byte{0}, 95)...)}, {offSubgroup}, {gb, offSubgroup}} {
 			add(&shmsg.Message{Payload: &shmsg.Message_PolyCommitment{PolyCommitment: &shmsg.PolyCommitment{Eon: eon, Gammas: gs}}})
 		}
 	}
@@ -103,6 +134,22 @@ func payloadPool(w *appx.World) []*shmsg.Message {
 	add(&shmsg.Message{Payload: &shmsg.Message_CheckIn{}})
 	add(&shmsg.Message{Payload: &shmsg.Message_DkgResult{}})
 	return out
+}
+
+// offSubgroupG2Point returns the compressed encoding of a point that lies on the
+// curve G2 lives on but outside the prime-order subgroup G2 (found by trying x
+// coordinates; almost every curve point is outside the subgroup).
+func offSubgroupG2Point() []byte {
+	for c := 0; c < 1000; c++ {
+		h := sha256.Sum256([]byte(fmt.Sprintf("verif-off-subgroup-%d", c)))
+		b := bytes.Repeat(h[:], 3)
+		b[0] = 0x80 | (b[0] & 0x0f) // compressed, not infinity, x below the field modulus
+		p := new(blst.P2Affine).Uncompress(b)
+		if p != nil && !p.InG2() {
+			return b
+		}
+	}
+	panic("no off-subgroup point found")
 }
 
 func encodeTx(signed []byte) []byte { return []byte(base64.RawURLEncoding.EncodeToString(signed)) }
@@ -117,11 +164,11 @@ func hostilePool(w *appx.World, thorough bool) (pool []hostile, raws []hostile) 
 		freshNonce++
 		desc := fmt.Sprintf("payload#%d %T", pi, m.Payload)
 		// foreign signer, right chain
-		pool = append(pool, hostile{"foreign", desc + " signed by a non-member", appx.SignTx(m, appx.ChainID, freshNonce, u.Keys[foreignIdx])})
+		pool = append(pool, hostile{Class: "foreign", Desc: desc + " signed by a non-member", Tx: appx.SignTx(m, appx.ChainID, freshNonce, u.Keys[foreignIdx])})
 		// member signer, wrong chain
-		pool = append(pool, hostile{"wrongchain", desc + " member-signed for another chain", appx.SignTx(m, "other-chain", freshNonce, u.Keys[1])})
+		pool = append(pool, hostile{Class: "wrongchain", Desc: desc + " member-signed for another chain", Tx: appx.SignTx(m, "other-chain", freshNonce, u.Keys[1])})
 		// member signer, right chain (no panic only)
-		pool = append(pool, hostile{"member", desc + " member-signed", appx.SignTx(m, appx.ChainID, freshNonce, u.Keys[1])})
+		pool = append(pool, hostile{Class: "member", Desc: desc + " member-signed", Tx: appx.SignTx(m, appx.ChainID, freshNonce, u.Keys[1]), Invalid: invalidPayload(m)})
 	}
 	// envelope-level oddities
 	valid := appx.SignTx(shmsg.NewBlockSeen(7), appx.ChainID, 777777, u.Keys[1])
@@ -137,7 +184,7 @@ func hostilePool(w *appx.World, thorough bool) (pool []hostile, raws []hostile) 
 		if i > 0 {
 			cls = "wrongchain"
 		}
-		pool = append(pool, hostile{cls, fmt.Sprintf("envelope oddity %d", i), encodeTx(s)})
+		pool = append(pool, hostile{Class: cls, Desc: fmt.Sprintf("envelope oddity %d", i), Tx: encodeTx(s)})
 	}
 	// two payloads in one message (protobuf merge: last oneof wins)
 	m1, _ := proto.Marshal(&shmsg.MessageWithNonce{ChainId: []byte(appx.ChainID), RandomNonce: 6, Msg: shmsg.NewBlockSeen(1)})
@@ -146,11 +193,11 @@ func hostilePool(w *appx.World, thorough bool) (pool []hostile, raws []hostile) 
 	{
 		h := sigHash(both)
 		sig, _ := crypto.Sign(h, u.Keys[foreignIdx])
-		pool = append(pool, hostile{"foreign", "two payloads concatenated, signed by a non-member", encodeTx(append(sig, both...))})
+		pool = append(pool, hostile{Class: "foreign", Desc: "two payloads concatenated, signed by a non-member", Tx: encodeTx(append(sig, both...))})
 	}
 	// raw strings: malformed
 	addRaw := func(desc string, b []byte) {
-		raws = append(raws, hostile{"malformed", desc, b})
+		raws = append(raws, hostile{Class: "malformed", Desc: desc, Tx: b})
 	}
 	addRaw("empty", []byte{})
 	for i := 0; i < 256; i++ {
@@ -198,7 +245,7 @@ func hostilePool(w *appx.World, thorough bool) (pool []hostile, raws []hostile) 
 			if cls == "skip" {
 				continue
 			}
-			h := hostile{cls, fmt.Sprintf("signed message byte %d set to %#x", i, nb), encodeTx(mut)}
+			h := hostile{Class: cls, Desc: fmt.Sprintf("signed message byte %d set to %#x", i, nb), Tx: encodeTx(mut)}
 			if cls == "malformed" {
 				raws = append(raws, h)
 			} else {
@@ -373,6 +420,9 @@ func c10Inject(w *appx.World, b *c10base, injs []c10Inj) (string, string, string
 				}
 			case "member":
 				memberInjected = true
+				if x.Invalid != "" && dr.Code == 0 {
+					return "", "C10/invalid-payload-gets-code-0", fmt.Sprintf("DeliverTx answers code 0 (events %v) to a member-signed transaction whose payload is structurally invalid: %s (%s)", dr.Events, x.Invalid, x.Desc)
+				}
 				if dr.Code != 0 {
 					// refused although correctly signed by a member (structurally invalid or
 					// inapplicable payload): no events and no effect besides the consumed nonce
@@ -468,7 +518,7 @@ func c10() *report.Check {
 					// replays of every earlier tx of the history
 					for j := 0; j < pos; j++ {
 						if b.txs[j] != nil {
-							cases = append(cases, hostile{"replay", fmt.Sprintf("replay of history step %d (%s)", j, h.Ops[j]), b.txs[j]})
+							cases = append(cases, hostile{Class: "replay", Desc: fmt.Sprintf("replay of history step %d (%s)", j, h.Ops[j]), Tx: b.txs[j]})
 						}
 					}
 					// raw garbage: all of it at three positions per history, the 1-byte
